@@ -434,7 +434,8 @@ func (s *controlledSelector) HandleSuccessResponse(
 	if pair.nominateOnBindingSuccess {
 		if selectedPair := s.agent.getSelectedPair(); selectedPair == nil ||
 			(selectedPair != pair &&
-				(!s.agent.needsToCheckPriorityOnNominated() || selectedPair.priority() <= pair.priority())) {
+				(pair.renominateOnBindingSuccess ||
+					!s.agent.needsToCheckPriorityOnNominated() || selectedPair.priority() <= pair.priority())) {
 			s.agent.setSelectedPair(pair)
 		} else if selectedPair != pair {
 			s.log.Tracef("Ignore nominate new pair %s, already nominated pair %s", pair, selectedPair)
@@ -499,6 +500,7 @@ func (s *controlledSelector) HandleBindingRequest(message *stun.Message, local, 
 			// candidate pair state to Failed, and set the checklist state to
 			// Failed.
 			pair.nominateOnBindingSuccess = true
+			pair.renominateOnBindingSuccess = nominationValue != nil
 		}
 	}
 
